@@ -1,5 +1,7 @@
 SPECIFICATION Spec
-CONSTANT Pipelines <- AllPipelines
+CONSTANTS
+  PipelineIds <- AllIds
+  PL <- PLOf
 INVARIANT Inv
 PROPERTY NoDispatchAfterAmbiguous
 CHECK_DEADLOCK FALSE
